@@ -259,6 +259,27 @@ def case_array(ctx, rng):
         judge_forms(ctx, op, forms, x.indices, fn(d, dy), w, charge=x.charge, nontrivial=(sig, struct_sig(y)) if diff else None)
         if op in ("add", "mul"):
             judge_forms(ctx, op + "_swapped", {"operator": lambda: fn(y, x)}, x.indices, fn(dy, d), w, charge=x.charge)
+        # augmented assignment with a partner that stores EXACTLY x's sectors, inserted in
+        # another order (harness-built: y's values where it has them, zeros elsewhere)
+        order = list(x.blocks)
+        rng.shuffle(order)
+        yb = {s_: (np.array(y.blocks[s_]) if s_ in y.blocks else np.zeros_like(np.asarray(x.blocks[s_]))) for s_ in order}
+        kw2 = dict(indices=x.indices, charge=x.charge, blocks=yb)
+        if not type(x).static_symmetry:
+            kw2["symmetry"] = x.symmetry
+        y2 = type(x)(**kw2)
+        dy2 = embed(y2, x.indices)
+        ifn = {"add": operator.iadd, "sub": operator.isub, "mul": operator.imul}[op]
+
+        def inplace():
+            t = x.copy()
+            r = ifn(t, y2)
+            if r is not t:
+                raise AssertionError("augmented assignment returned a different object")
+            return r
+
+        ctx.count("feature", "inplace-with-reordered-partner")
+        judge_forms(ctx, op + "_inplace", {"operator": inplace, "out-of-place": lambda: fn(x, y2)}, x.indices, fn(d, dy2), dict(wit, y=describe(y2, True)), charge=x.charge, nontrivial=(sig, "inplace", tuple(order)) if len(order) >= 2 else None)
     elif op == "multiply_diagonal":
         if x.ndim == 0:
             return
